@@ -3,6 +3,7 @@ import DaskModel.Model.Chunks
 import DaskModel.Model.Creation
 import DaskModel.Model.Structural
 import DaskModel.Model.Counting
+import DaskModel.Generated.ChunkTolerance
 open Dask
 open Dask.Chunks
 open Dask.Creation
@@ -304,7 +305,32 @@ def hCoarsen : Handler := handler fun args =>
   | _ => none
 
 
+
+/-- `(shuffle (old…) ((group…)…) limit (xs…))` ↦ `((new chunk takers…) (values…))` with the extracted tolerance -/
+def hShuffle : Handler := handler fun args =>
+  match args with
+  | [old, groups, limit, xs] => do
+    let old ← old.toNats?
+    let groups ← groups.toNatss?
+    let limit ← limit.toNat?
+    let xs ← xs.toInts?
+    let newChunks := packGroups limit Dask.Generated.ChunkTolerance.tolNum Dask.Generated.ChunkTolerance.tolDen [] groups
+    let vals := newChunks.map (fun T => shuffleChunk old (splitBy old xs) T)
+    pure (.list [SExp.ofNatss newChunks, encIntss vals])
+  | _ => none
+
+/-- `(diagonal (rch…) (cch…) k)` ↦ `(ok ((I J k len)…))` | `(raised)` -/
+def hDiagonal : Handler := handler fun args =>
+  match args with
+  | [r, c, k] => do
+    match diagonalPlan (← r.toNats?) (← c.toNats?) (← k.toInt?) with
+    | some segs => pure (.list [.sym "ok", .list (segs.map (fun s => SExp.ofInts [s.I, s.J, s.k, s.len]))])
+    | none => pure (.list [.sym "raised"])
+  | _ => none
+
+
 def table : List (String × Handler) := [
+  ("shuffle", hShuffle), ("diagonal", hDiagonal),
   ("searchsorted", hSearchsorted), ("bincount", hBincount), ("histogram", hHistogram), ("unique", hUnique),
   ("unique_internal", hUniqueInternal), ("nonzero", hNonzero), ("coarsen_sum", hCoarsen),
   ("concat_plan", hConcatPlan), ("pad", hPad), ("pad_chunks", hPadChunks), ("roll", hRoll),
